@@ -43,6 +43,11 @@ func routeHandler(name string, vars []string) rux.HandlerFunc {
 			rec.ParamVia[v] = c.Param(v)
 		}
 		rec.ParamVia["__undefined__"] = c.Param("__undefined__")
+		// the handler hands a copy of its context to background work: the copy knows the same values
+		cp := c.Copy()
+		for _, v := range vars {
+			rec.ParamVia["copy:"+v] = cp.Param(v)
+		}
 		if c.Req.Header.Get("X-Edit-Params") != "" && c.Params != nil {
 			// the handler works on ITS parameters in place (normalising an id, adding a derived value)
 			rec.Extra["params_map_itself"] = nil
@@ -345,6 +350,10 @@ func routingCase(t *T, params bool) {
 				// c.Param(name) view
 				vs, _ := tb.Routes[got].Pat.Vars()
 				for _, v := range vs {
+					if cv := rec.ParamVia["copy:"+v.Name]; cv != rec.Params[v.Name] {
+						t.Fail("param-lost-in-context-copy", "ServeHTTP(%s %q): c.Copy().Param(%q)=%q but c.Params has %q", method, path, v.Name, cv, rec.Params[v.Name])
+						return
+					}
 					if rec.ParamVia[v.Name] != rec.Params[v.Name] {
 						t.Fail("param-accessor-differs", "ServeHTTP(%s %q): c.Param(%q)=%q but c.Params has %q", method, path, v.Name, rec.ParamVia[v.Name], rec.Params[v.Name])
 					}
